@@ -29,17 +29,22 @@ Proof.
   injection E as E1 E2. lia.
 Qed.
 
-(* C16_Model.v keeps its own copy of overlap_slices WITHOUT the zero-size-image clause of the repaired
-   BoundingBox.get_overlap_slices (fix C01-1); the regenerated function agrees with it on every non-empty image *)
+(* C16_Model.v's copy of overlap_slices mirrors the repaired BoundingBox.get_overlap_slices including
+   the zero-size-image clause (fix C01-1): the regenerated function agrees with it for ALL boxes and shapes *)
 Definition slices_pair (o : option (slices2 * slices2)) : option slices2 * option slices2 :=
   match o with None => (None, None) | Some (l, s) => (Some l, Some s) end.
-Theorem gen_get_overlap_slices_eq_nonempty_image : forall b ny nx, 0 < ny -> 0 < nx ->
+Theorem gen_get_overlap_slices_eq : forall b ny nx,
   gen_get_overlap_slices (ixmin b) (ixmax b) (iymin b) (iymax b) ny nx = slices_pair (overlap_slices b ny nx).
 Proof.
-  intros b ny nx Hy Hx. unfold gen_get_overlap_slices, overlap_slices, slices_pair. if_split; z_leaf.
+  intros b ny nx. unfold gen_get_overlap_slices, overlap_slices, slices_pair. if_split; z_leaf.
 Qed.
+(* kept under its earlier name (non-empty images) for anything that cites it *)
+Theorem gen_get_overlap_slices_eq_nonempty_image : forall b ny nx, 0 < ny -> 0 < nx ->
+  gen_get_overlap_slices (ixmin b) (ixmax b) (iymin b) (iymax b) ny nx = slices_pair (overlap_slices b ny nx).
+Proof. intros b ny nx _ _. apply gen_get_overlap_slices_eq. Qed.
 
 Print Assumptions gen_centroid_origin_eq.
+Print Assumptions gen_get_overlap_slices_eq.
 Print Assumptions gen_get_overlap_slices_eq_nonempty_image.
 Print Assumptions gen_centroid_origin_is_cutout_origin.
 Print Assumptions gen_centroid_origin_differs_from_corner.
